@@ -20,8 +20,12 @@ def well_formed_responses(kind, rng):
     """(list of (payload, code)) a device could send for this request"""
     r = rng.random()
     if kind == "list":
-        if r < 0.7:
+        if r < 0.6:
             paths = [f"/n/{i}" for i in range(rng.randrange(0, 4))]
+            return [(p, "Continue") for p in paths] + [("", "Ok")]
+        if r < 0.7:
+            # the settings tree is a single leaf (its path is the empty string), or an empty path among others
+            paths = rng.choice([[""], ["/n/0", "", "/n/2"], ["", ""]])
             return [(p, "Continue") for p in paths] + [("", "Ok")]
         if r < 0.85:
             return [("/leaf", "Ok")]                                # list on a leaf
@@ -101,7 +105,7 @@ def gen_cases(rng, tier):
             t = "R" if topic == "R" else cp(topic)
             c = "-" if cdspec is None else (f"r{cdspec}" if isinstance(cdspec, int) else cdspec)
             ctok = "-" if code is None else (code if code[:1].isupper() else cp(code))
-            toks.append(f"msg:{t}:{cp(payload)}:{c}:{ctok}")
+            toks.append(f"msg:{t}:{'X' + payload.hex() if isinstance(payload, bytes) else cp(payload)}:{c}:{ctok}")
         cases.append(f"py {cid} {variant} " + " ".join(toks))
         exp[cid] = (expected(variant, reqs, msgs), kind)
 
@@ -133,18 +137,20 @@ def gen_cases(rng, tier):
                 k = rng.choice([i for i, s in enumerate(its) if s])
                 msgs.append(its[k].pop(0))
                 r = rng.random()
+                # what a message that belongs to no request carries is arbitrary bytes, not necessarily UTF-8
+                zz = rng.choice(["zz", "zz", b"\xff\xfe", b"\xc3", b"ok\x80"])
                 if r < 0.1:
                     msgs.append(msgs[-1])                                                  # duplicate
                 elif r < 0.2:
-                    msgs.append((rng.choice(["other/topic", PFX + "/settings/a", RT + "x"]), "zz", k, "Ok"))   # foreign topic
+                    msgs.append((rng.choice(["other/topic", PFX + "/settings/a", RT + "x"]), zz, k, "Ok"))   # foreign topic
                 elif r < 0.3:
-                    msgs.append(("R", "zz", "deadbeef", "Ok"))                            # unknown correlation data
+                    msgs.append(("R", zz, "deadbeef", "Ok"))                            # unknown correlation data
                 elif r < 0.36:
-                    msgs.append(("R", "zz", None, "Ok"))                                  # no correlation data
+                    msgs.append(("R", zz, None, "Ok"))                                  # no correlation data
                 elif r < 0.42:
-                    msgs.append(("R", "zz", k, None))                                     # no code
+                    msgs.append(("R", zz, k, None))                                     # no code
                 elif r < 0.46:
-                    msgs.append(("R", "zz", None, None))                                  # no properties at all
+                    msgs.append(("R", zz, None, None))                                  # no properties at all
                 elif r < 0.5:
                     msgs.append(("R", "7", rng.randrange(len(reqs)), rng.choice(["Ok", "Error", "Continue", "ok", "Weird"])))
             add(variant, reqs, msgs, "random", inpub=rng.choice([0, 0, 0, 1, 2]) if msgs else 0)
